@@ -15,7 +15,17 @@
     addout r txout | repout r i txout | rmout r i | setwit r wit
     sighash r subscripthex inIdx hashtype | sighashw r inIdx hashtype
     verify r inIdx sub:ht,sub:ht,…
+  extended catalogue (references to existing objects; audit F4):
+    setref T slot S          T.<reference attribute #slot> = <object S>     (txin: 0=prevout; tx: 0=vin 1=vout 2=wit)
+    setprev T hash,n         T.prevout = CMutableOutPoint(hash, n)
+    appref L S | repref L i S          L.append(<S>) | L[i] = <S>           (L a vin/vout list, e.g. 3.0)
+    newtxfrom VIN VOUT lock ver WIT|-  CMutableTransaction(<VIN>, <VOUT>, lock, ver[, <WIT>])   ('-': witness=None)
+    newtxd ver lock vin vout           CMutableTransaction([fresh…], [fresh…], lock, ver)        (witness=None)
+    newin PREV|- script seq            CMutableTxIn(<PREV> | None, script, seq)
   T := name('.'childindex)*   name = index of the user step that created the root object.
+    c09.specx <history>      like c09.runv, computed on Spec.AliasSem (cells with explicit aliasing)
+    c09.xcheck <history>     'same' if heap model and Spec.AliasSem agree on every observation, else 'diff@k'
+    c09.runc <history>       c09.run output, then '@@', then the c09.xcheck verdict 
 
   After every user step the driver observes every live object (every non-sequence object below
   every named root, preorder): mutability flag, serialize(), GetHash(), GetTxid(), hash() class,
@@ -24,10 +34,10 @@
 -/
 import Driver.Util
 import Driver.TxFmt
-import BtcVerif.Model.Heap
+import BtcVerif.Model.HeapX
 
 namespace Driver.C09
-open BtcVerif Driver BtcVerif.Spec.ValueSem BtcVerif.Model.Heap
+open BtcVerif Driver BtcVerif.Spec.ValueSem BtcVerif.Model.Heap BtcVerif.Spec.AliasSem
 
 def noName : Nat := 1000000000
 
@@ -64,7 +74,7 @@ def parseCall? (s : String) : Option (Bytes × Nat) :=
   | [a, b] => do let a ← parseHex? a; let b ← parseNat? b; pure (a, b)
   | _ => none
 
-def parseOp? (s : String) : Option Op :=
+def parseBaseOp? (s : String) : Option Op :=
   match s.splitOn " " with
   | ["newtx", a, b, c, d, e] => (parseTxWords? a b c d e).map .newTx
   | ["newctx", a, b, c, d, e] => (parseTxWords? a b c d e).map .newCTx
@@ -102,6 +112,31 @@ def parseOp? (s : String) : Option Op :=
       pure (.verify r i cs)
   | _ => none
 
+def parseOutPoint? (s : String) : Option OutPoint :=
+  match s.splitOn "," with
+  | [h, n] => do let h ← parseHex? h; let n ← parseNat? n; pure ⟨h, n⟩
+  | _ => none
+
+def parseOptTarget? (s : String) : Option (Option Target) :=
+  if s == "-" then some none else (parseTarget? s).map some
+
+def parseOp? (s : String) : Option OpX :=
+  match s.splitOn " " with
+  | ["setref", t, k, src] => do
+      let t ← parseTarget? t; let k ← parseNat? k; let src ← parseTarget? src; pure (.assignRef t k src)
+  | ["setprev", t, o] => do let t ← parseTarget? t; let o ← parseOutPoint? o; pure (.setPrevout t o)
+  | ["appref", l, src] => do let l ← parseTarget? l; let src ← parseTarget? src; pure (.appendRef l src)
+  | ["repref", l, i, src] => do
+      let l ← parseTarget? l; let i ← parseNat? i; let src ← parseTarget? src; pure (.replaceRef l i src)
+  | ["newtxfrom", vi, vo, lock, ver, w] => do
+      let vi ← parseTarget? vi; let vo ← parseTarget? vo; let lock ← parseNat? lock; let ver ← parseInt? ver
+      let w ← parseOptTarget? w
+      pure (.newTxFrom vi vo lock ver w)
+  | ["newtxd", a, b, c, d] => (parseTxWords? a b c d "-").map .newTxDefault
+  | ["newin", pr, sc, q] => do
+      let pr ← parseOptTarget? pr; let sc ← parseHex? sc; let q ← parseNat? q; pure (.newTxInFrom pr sc q)
+  | _ => (parseBaseOp? s).map .base
+
 /-! ### renaming user names to model/spec names -/
 
 def mapRoot (tbl : List Nat) (u : Nat) : Nat := tbl[u]?.getD noName
@@ -132,6 +167,16 @@ def renameOp (tbl : List Nat) : Op → Op
   | .verify r i c => .verify (mapRoot tbl r) i c
   | op => op
 
+def renameOpX (tbl : List Nat) : OpX → OpX
+  | .base op => .base (renameOp tbl op)
+  | .assignRef t k src => .assignRef (mapT tbl t) k (mapT tbl src)
+  | .setPrevout t v => .setPrevout (mapT tbl t) v
+  | .appendRef l src => .appendRef (mapT tbl l) (mapT tbl src)
+  | .replaceRef l i src => .replaceRef (mapT tbl l) i (mapT tbl src)
+  | .newTxFrom vi vo lock ver w => .newTxFrom (mapT tbl vi) (mapT tbl vo) lock ver (w.map (mapT tbl))
+  | .newTxDefault v => .newTxDefault v
+  | .newTxInFrom pr sc q => .newTxInFrom (pr.map (mapT tbl)) sc q
+
 /-! ### rendering -/
 
 def short (b : Bytes) : String := toHex (b.take 8)
@@ -150,7 +195,7 @@ def showOut : Out → String
 
 /-- a machine the driver can run a history on: the heap model or the value store -/
 structure Machine (σ : Type) where
-  step : σ → Op → σ × Out
+  step : σ → OpX → σ × Out
   nameCount : σ → Nat
   /-- the live objects below a root, preorder: (path, family, isMutable) of every non-sequence object -/
   targets : σ → Nat → List (List Nat × Nat × Bool)
@@ -204,10 +249,33 @@ def storeTargets (s : Store) (r : Nat) : List (List Nat × Nat × Bool) :=
   | some e => walkV D e.isMut [] e.val
 
 def heapMachine : Machine St :=
-  { step := Model.Heap.step, nameCount := fun s => s.names.length, targets := heapTargets }
+  { step := Model.HeapX.stepX, nameCount := fun s => s.names.length, targets := heapTargets }
 
+/-- the plain value store runs the `Spec.ValueSem.Op` part of the catalogue only -/
 def specMachine : Machine Store :=
-  { step := Spec.ValueSem.step, nameCount := fun s => s.length, targets := storeTargets }
+  { step := fun s op => match op with
+      | .base op => Spec.ValueSem.step s op
+      | _ => (Spec.ValueSem.bind s none, .na),
+    nameCount := fun s => s.length, targets := storeTargets }
+
+/-- enumeration of the live objects below a reference of the aliasing spec -/
+def walkR : Nat → List Cell → List Nat → Ref → List (List Nat × Nat × Bool)
+  | 0, _, _, _ => []
+  | f + 1, _, path, .val v => walkV (f + 1) false path v
+  | f + 1, cs, path, .cell c =>
+    match cs[c]? with
+    | none => []
+    | some cell =>
+      let here := if cell.sc.isSeq then [] else [(path, scFamily cell.sc, true)]
+      here ++ (cell.refs.zipIdx.flatMap fun (k, i) => walkR f cs (path ++ [i]) k)
+
+def xTargets (s : XStore) (r : Nat) : List (List Nat × Nat × Bool) :=
+  match s.root r with
+  | none => []
+  | some rf => walkR D s.cells [] rf
+
+def xMachine : Machine XStore :=
+  { step := Spec.AliasSem.stepX, nameCount := fun s => s.names.length, targets := xTargets }
 
 /-! #### one user step with its observations -/
 
@@ -228,10 +296,10 @@ def observeTarget {σ} (m : Machine σ) (u : Nat) (acc : Acc σ) (mi : Nat) (x :
     Acc σ :=
   let (path, fam, isMut) := x
   let t : Target := ⟨mi, path⟩
-  let (s1, oSer) := m.step acc.st (.ser t)
-  let (s2, oHash) := m.step s1 (.getHash t)
-  let (s3, oTxid) := m.step s2 (.txid t)
-  let (s4, oPy) := m.step s3 (.pyHash t)
+  let (s1, oSer) := m.step acc.st (.base (.ser t))
+  let (s2, oHash) := m.step s1 (.base (.getHash t))
+  let (s3, oTxid) := m.step s2 (.base (.txid t))
+  let (s4, oPy) := m.step s3 (.base (.pyHash t))
   let rb (o : Out) (f : Bytes → String) : String :=
     match o with
     | .bytes r => showRes r f
@@ -244,7 +312,7 @@ def observeTarget {σ} (m : Machine σ) (u : Nat) (acc : Acc σ) (mi : Nat) (x :
     match acc.firstOfFam.lookup fam with
     | none => (s4, "-", acc.firstOfFam ++ [(fam, t)])
     | some t0 =>
-      let (s5, o) := m.step s4 (.eq t t0)
+      let (s5, o) := m.step s4 (.base (.eq t t0))
       (s5, showOut o, acc.firstOfFam)
   let str := s!"{showPath u path}:{if isMut then "M" else "I"}:{rb oSer (fun b => short (Crypto.sha256 b))}:{rb oHash short}:{rb oTxid short}:{pyOut}:{eqS}"
   { st := s5, firstOfFam := fof, pyClasses := pcs, outStrs := acc.outStrs ++ [str] }
@@ -257,13 +325,13 @@ def observeAll {σ} (m : Machine σ) (s : σ) (tbl : List Nat) : σ × String :=
   -- `==` matrix of the roots
   let pairs := live.flatMap fun (mi, u) => (live.filter fun (_, u') => u < u').map fun (mj, _) => (mi, mj)
   let (s', bits) := pairs.foldl (fun (s, bits) (mi, mj) =>
-      let (s1, o) := m.step s (.eq ⟨mi, []⟩ ⟨mj, []⟩)
+      let (s1, o) := m.step s (.base (.eq ⟨mi, []⟩ ⟨mj, []⟩))
       (s1, bits ++ (match o with
         | .bool (.ok true) => "1" | .bool (.ok false) => "0" | _ => "e"))) (acc.st, "")
   (s', ",".intercalate acc.outStrs ++ "#" ++ bits)
 
-def extraOut (s : St) (tbl : List Nat) : Op → String
-  | .sighash r sub i ht =>
+def extraOut (s : St) (tbl : List Nat) : OpX → String
+  | .base (.sighash r sub i ht) =>
       match s.root (mapRoot tbl r) with
       | some a =>
         match rawSigHash s.heap a sub i ht with
@@ -274,10 +342,10 @@ def extraOut (s : St) (tbl : List Nat) : Op → String
 
 def digestStr (s : String) : String := short (Crypto.sha256 s.toUTF8.toList)
 
-def runHistory {σ} (m : Machine σ) (init : σ) (extra : σ → List Nat → Op → String)
-    (verbose : Bool) (ops : List Op) : String :=
+def runHistory {σ} (m : Machine σ) (init : σ) (extra : σ → List Nat → OpX → String)
+    (verbose : Bool) (ops : List OpX) : String :=
   let (_, _, outs) := ops.foldl (fun (s, tbl, outs) op =>
-      let op' := renameOp tbl op
+      let op' := renameOpX tbl op
       let ex := extra s tbl op
       let mi := m.nameCount s
       let (s1, o) := m.step s op'
@@ -296,6 +364,26 @@ def handle (op : String) (args : List String) : Option String :=
       | none => badArgs
   | "c09.spec", [h] => some <| match (h.splitOn ";").mapM parseOp? with
       | some ops => runHistory specMachine Spec.ValueSem.init (fun _ _ _ => "") true ops
+      | none => badArgs
+  | "c09.specx", [h] => some <| match (h.splitOn ";").mapM parseOp? with
+      | some ops => runHistory xMachine Spec.AliasSem.init (fun _ _ _ => "") true ops
+      | none => badArgs
+  | "c09.runc", [h] => some <| match (h.splitOn ";").mapM parseOp? with
+      | some ops =>
+        let r := runHistory heapMachine Model.Heap.init extraOut false ops
+        let a := (runHistory heapMachine Model.Heap.init (fun _ _ _ => "") true ops).splitOn ";"
+        let b := (runHistory xMachine Spec.AliasSem.init (fun _ _ _ => "") true ops).splitOn ";"
+        match (a.zip b).zipIdx.find? (fun ((x, y), _) => x != y) with
+        | none => r ++ "@@same"
+        | some (_, k) => r ++ s!"@@diff@{k}"
+      | none => badArgs
+  | "c09.xcheck", [h] => some <| match (h.splitOn ";").mapM parseOp? with
+      | some ops =>
+        let a := (runHistory heapMachine Model.Heap.init (fun _ _ _ => "") true ops).splitOn ";"
+        let b := (runHistory xMachine Spec.AliasSem.init (fun _ _ _ => "") true ops).splitOn ";"
+        match (a.zip b).zipIdx.find? (fun ((x, y), _) => x != y) with
+        | none => "same"
+        | some (_, k) => s!"diff@{k}"
       | none => badArgs
   | _, _ => none
 
